@@ -804,6 +804,15 @@ func c12Validator(c *core.Ctx, keys []gen.KeyPair, cas []*gen.CA, certFn gen.Fun
 					setKey(m, id, func(k *intoto.Key) { k.Scheme = "" })
 				}},
 			)
+			// schemes next to a supported one (a prefix, an extension, another case, blanks): the
+			// key type is set to the family the scheme resembles, so only the scheme is at fault
+			for _, ns := range c12NearSchemes {
+				ns := ns
+				variants = append(variants, lv{fmt.Sprintf("%s: key type %q with near-scheme %q", mname, ns[0], ns[1]), func(l *intoto.Layout, s *[]intoto.Signature) {
+					m, id := pick(l)
+					setKey(m, id, func(k *intoto.Key) { k.KeyType = ns[0]; k.Scheme = ns[1] })
+				}})
+			}
 		}
 		if i < 4 {
 			// strings next to the hexadecimal alphabet, at every place where one is demanded
@@ -889,4 +898,16 @@ func init() {
 		Run:      runC12,
 		TimeoutS: func(t string) int { return 900 },
 	})
+}
+
+// c12NearSchemes: (key type, scheme) pairs whose scheme is not one of the supported ones of that
+// key type but lies next to one; the validator has to refuse every one of them.
+var c12NearSchemes = [][2]string{
+	{"ecdsa", "ecdsa-sha2-nistp"}, {"ecdsa", "ecdsa-sha2-nistp999"}, {"ecdsa", "ecdsa-sha2-nistp256-and-more"},
+	{"ecdsa", "ecdsa-sha2-nistp25"}, {"ecdsa", "ecdsa-sha2-nistp2560"}, {"ecdsa", "ECDSA-SHA2-NISTP256"},
+	{"ecdsa", "ecdsa-sha2-nistp256 "}, {"ecdsa", " ecdsa-sha2-nistp384"}, {"ecdsa", "ecdsa-sha2-nistp192"},
+	{"ecdsa", "ecdsa-sha2"}, {"ecdsa", "ecdsa"}, {"ecdsa", "sha2-nistp256"},
+	{"rsa", "rsassa-pss-sha25"}, {"rsa", "rsassa-pss-sha2560"}, {"rsa", "rsassa-pss-sha512"}, {"rsa", "RSASSA-PSS-SHA256"},
+	{"rsa", "rsassa-pss-sha256 "}, {"rsa", "rsassa-pss"}, {"rsa", "rsa"}, {"rsa", "rsassa-pkcs1v15-sha256"},
+	{"ed25519", "ed2551"}, {"ed25519", "ed255190"}, {"ed25519", "Ed25519"}, {"ed25519", "ed25519 "}, {"ed25519", "ed448"},
 }
